@@ -399,8 +399,16 @@ Z3_NEW = "z3-new"
 CVC5_BIN = "/usr/bin/cvc5"
 
 
+DEADLINE = [None]  # wall-clock deadline of the current section (set by pv.report); solver calls never outlive it
+
+
 def prove(hyps, goal, timeout_s=10.0, use_cvc5=True, want_model=True, axioms=True, clear=True):
     """Try to prove  And(hyps) => goal.   proved | refuted (with model) | undecided."""
+    if DEADLINE[0] is not None:
+        left = DEADLINE[0] - time.time()
+        if left <= 0.2:
+            return Verdict("undecided", None, "", 0.0, "time budget of this section exhausted")
+        timeout_s = max(0.2, min(timeout_s, left))
     hyps = list(hyps)
     if axioms:
         hyps = hyps + atoms_axioms(hyps + [goal])
